@@ -161,6 +161,15 @@ def solve_one(job):
             return r
         r2 = solve_one((oid, full, timeout_ms, portfolio))
         r2['tried'] = r.get('tried', []) + r2.get('tried', [])
+        if r2['status'] == 'unknown' and r['status'] == 'sat':
+            # refuted once every quantified assumption is replaced by its instances at the terms of
+            # the path, and not proved from the quantified form either: reported as refuted, with
+            # the model of the instantiated formula
+            r2['status'] = 'sat'
+            r2['backend'] = r.get('backend')
+            r2['model'] = r.get('model')
+            r2['values'] = r.get('values')
+            r2['variant'] = 'refuted modulo quantifier instantiation (quantified form: unknown)'
         return r2
     tried = []
     verdict = None
